@@ -715,6 +715,11 @@ def dec_obs(d):
 
 
 def observe_decoder(w):
+    for b in w.get("before", []):
+        try:
+            decoder_fn(w["meter"], w["form"])(bytes.fromhex(b))
+        except Exception:
+            pass
     try:
         return dec_obs(decoder_fn(w["meter"], w["form"])(bytes.fromhex(w["data"])))
     except Exception as e:
@@ -728,6 +733,11 @@ def judge_decoder(w):
         exp = CR.expected(w["meter"], list(data), w["form"])
     except CR.Malformed as e:
         return None                      # not a well-formed documented list: outside C07-C10
+    for b in w.get("before", []):
+        try:
+            decoder_fn(w["meter"], w["form"])(bytes.fromhex(b))          # earlier messages of the same process
+        except Exception:
+            pass
     try:
         got = decoder_fn(w["meter"], w["form"])(data)
     except Exception as e:
